@@ -1014,7 +1014,7 @@ class LemmaPoolContent(_Base):
                  fa_ki(lambda k, i: z3.Implies(mine(k), v1.has(k, i) == z3.Or(v0.has(k, i), z3.And(0 <= i, i < t))))),
                 ('stores of nodes outside the net keep their content', fa_ki(lambda k, i: z3.Implies(z3.Not(mine(k)), v1.has(k, i) == v0.has(k, i)))),
                 ('every held value is the one a fresh computation produces', fa_ki(lambda k, i: z3.Implies(v1.held(k, i), v1.val(k, i) == FRESH(k, i)))),
-                ('the set of stores is unchanged', fa_key(lambda k: z3.And(v1.st(k) == v0.st(k), z3.Implies(v1.none(k), v0.none(k)))))]
+                ('the set of stores is unchanged', fa_key(lambda k: z3.And(v1.st(k) == v0.st(k), z3.Implies(z3.And(v0.st(k), v1.none(k)), v0.none(k)))))]
 
     def _inv(self, s, l):
         t = T(l.t)
@@ -1159,7 +1159,8 @@ def sanity():
 
 def bounded(tier, seed):
     from bounded import c05 as b
-    return [b.run_histories(tier, seed), b.run_api(tier, seed)]
+    _cache['hist'], _cache['api'] = b.run_histories(tier, seed, stop_first=False), b.run_api(tier, seed)
+    return [_cache['hist'], _cache['api']]
 
 
 _cache = {}
@@ -1170,13 +1171,14 @@ def replay_refuted(cname, rf):
     if cname.startswith('lemma_generator_position'):
         inp = dict(vehicle='history', kind='dict', stores=['t1', 't2', 'S1'], history=['R2', 'R2'], batch_size=2, seed=3)
         return dict(found=not b.replay_input(inp), input=inp, observed='rerun with parameters stored and the simulator re-executed differs from the pool-free run')
+    if cname.startswith('lemma_'):
+        return dict(found=False, searched='a lemma over the contracts has no native input of its own')
     api_first = cname.startswith('OutputPool.') and not cname.startswith('OutputPool.set_context')
-    order = ['api', 'hist'] if api_first else ['hist', 'api']
     want = cname.split('.')[-1].split('[')[0].strip('_')
     best = None
-    for which in order:
+    for which in (['api', 'hist'] if api_first else ['hist', 'api']):
         if which not in _cache:
-            _cache[which] = b.run_api('quick', 0) if which == 'api' else b.run_histories('quick', 0)
+            _cache[which] = b.run_api('quick', 0) if which == 'api' else b.run_histories('quick', 0, stop_first=False)
         fs = [f for f in _cache[which]['failures'] if f['signature'] != 'c05:params-stored-sim-reexecuted']
         for f in fs:
             if want in f['signature']:
